@@ -834,6 +834,570 @@ impl Clone for IntPartition {
     //@ end
 }
 
+// =====================================================================================================
+// PartitionImpl<T> / Partition<T>: the same forest behind a HashMap index.  R4: verified at T = usize, the only instantiation in
+// the crate (dsets.rs fold, derived.rs minimal_image); other T need vstd's obeys_key_model::<T>(), an assumption about T, not
+// about this code.  The rewrite replaces the type parameter T by usize textually.
+// =====================================================================================================
+//@ begin src/util/partitions.rs :: - :: struct PartitionImpl
+//@ rw R4 /struct PartitionImpl<T>/pub struct PartitionImpl/
+//@ rw R4 /\bT\b/usize/
+//@ rw R0 /^([ \t]+)(\w+): /\1pub \2: /
+pub struct PartitionImpl {
+    pub index: HashMap<usize, usize>,
+    pub elements: Vec<usize>,
+    pub rank: Vec<usize>,
+    pub parent: Vec<usize>,
+}
+//@ end
+
+// derived Clone (R0)
+impl Clone for PartitionImpl {
+    #[verifier::external_body]
+    fn clone(&self) -> (r: Self)
+        ensures r.index@ == self.index@, r.elements@ == self.elements@, r.parent@ == self.parent@, r.rank@ == self.rank@
+    { PartitionImpl { index: self.index.clone(), elements: self.elements.clone(), rank: self.rank.clone(), parent: self.parent.clone() } }
+}
+
+impl PartitionImpl {
+    pub open spec fn wf(&self) -> bool {
+        &&& self.elements@.len() == self.parent@.len()
+        &&& self.rank@.len() == self.parent@.len()
+        &&& in_range(self.parent@)
+        &&& acyclic(self.parent@)
+        &&& self.parent@.len() <= usize::MAX
+        // index and elements are mutually inverse: element a sits in slot index[a]
+        &&& forall|a: usize| #[trigger] self.index@.contains_key(a) ==> self.index@[a] < self.elements@.len() && self.elements@[self.index@[a] as int] == a
+        &&& forall|i: int| 0 <= i < self.elements@.len() ==> self.index@.contains_key(#[trigger] self.elements@[i]) && self.index@[self.elements@[i]] == i
+    }
+    pub open spec fn rank_ok(&self) -> bool { total(self.rank@) <= nonroots(self.parent@) }
+
+    // the representative ELEMENT of element a (elements never seen are their own class)
+    pub open spec fn erep(&self, a: usize) -> usize {
+        if self.index@.contains_key(a) { self.elements@[rep(self.parent@, self.index@[a] as int)] } else { a }
+    }
+
+    proof fn lemma_slots(&self, a: usize)
+        requires self.wf(), self.index@.contains_key(a)
+        ensures 0 <= rep(self.parent@, self.index@[a] as int) < self.parent@.len(),
+            self.index@.contains_key(self.erep(a)), self.index@[self.erep(a)] == rep(self.parent@, self.index@[a] as int),
+    {
+        lemma_rep_props(self.parent@, self.index@[a] as int);
+    }
+
+    // two indexed elements have the same representative element iff their slots have the same root
+    proof fn lemma_erep_eq(&self, a: usize, b: usize)
+        requires self.wf(), self.index@.contains_key(a), self.index@.contains_key(b)
+        ensures (self.erep(a) == self.erep(b)) <==> (rep(self.parent@, self.index@[a] as int) == rep(self.parent@, self.index@[b] as int))
+    {
+        self.lemma_slots(a); self.lemma_slots(b);
+    }
+
+    //@ begin src/util/partitions.rs :: impl<T> PartitionImpl<T> where T: Clone + Eq + Hash :: fn new
+    //@ rw R16 /-> Self/-> (r: Self)/
+    fn new() -> (r: Self)
+        ensures r.wf(), r.parent@.len() == 0, forall|a: usize| #[trigger] r.erep(a) == a,
+            r.rank_ok(), // aux
+    {
+        broadcast use vstd::std_specs::hash::group_hash_axioms;
+        PartitionImpl {
+            index: HashMap::new(),
+            elements: vec![],
+            rank: vec![],
+            parent: vec![],
+        }
+    }
+    //@ end
+
+    //@ begin src/util/partitions.rs :: impl<T> PartitionImpl<T> where T: Clone + Eq + Hash :: fn get_index
+    //@ rw R4 /\bT\b/usize/
+    //@ rw R16 /-> usize/-> (r: usize)/
+    fn get_index(&mut self, a: &usize) -> (r: usize)
+        requires old(self).wf(), old(self).parent@.len() < usize::MAX
+        ensures final(self).wf(), final(self).index@.contains_key(*a), r == final(self).index@[*a], r < final(self).parent@.len(),
+            forall|z: usize| #[trigger] final(self).erep(z) == old(self).erep(z),
+            forall|z: usize| old(self).index@.contains_key(z) ==> #[trigger] final(self).index@.contains_key(z) && final(self).index@[z] == old(self).index@[z],
+            final(self).parent@.len() >= old(self).parent@.len(), final(self).parent@.len() <= old(self).parent@.len() + 1,
+            forall|i: int| 0 <= i < old(self).parent@.len() ==> #[trigger] final(self).parent@[i] == old(self).parent@[i],
+            old(self).rank_ok() ==> final(self).rank_ok(), // aux
+    {
+        broadcast use vstd::std_specs::hash::group_hash_axioms;
+        if let Some(x) = self.index.get(a) {
+            *x
+        } else {
+            proof { lemma_push(self.parent@); lemma_push_counts(self.parent@, self.rank@); }
+            let i = self.elements.len();
+            self.index.insert(a.clone(), i);
+            self.elements.push(a.clone());
+            self.rank.push(0);
+            self.parent.push(i);
+            proof {
+                let p0 = old(self).parent@;
+                assert(self.parent@ == p0.push(i));
+                assert forall|z: usize| #[trigger] self.erep(z) == old(self).erep(z) by {
+                    if z == *a {
+                        lemma_root_rep(self.parent@, i as int);
+                    } else if old(self).index@.contains_key(z) {
+                        let k = old(self).index@[z] as int;
+                        lemma_rep_props(p0, k);
+                        assert(rep(self.parent@, k) == rep(p0, k));
+                        assert(self.elements@[rep(p0, k)] == old(self).elements@[rep(p0, k)]);
+                    }
+                }
+                assert forall|k: int| 0 <= k < self.elements@.len() implies self.index@.contains_key(#[trigger] self.elements@[k]) && self.index@[self.elements@[k]] == k by {
+                    if k < i { assert(self.elements@[k] == old(self).elements@[k]); assert(old(self).index@.contains_key(old(self).elements@[k])); }
+                }
+            }
+            i
+        }
+    }
+    //@ end
+
+    //@ begin src/util/partitions.rs :: impl<T> PartitionImpl<T> where T: Clone + Eq + Hash :: fn root_index
+    //@ rw R4 /\bT\b/usize/
+    //@ rw R16 /-> usize/-> (r: usize)/
+    #[verifier::exec_allows_no_decreases_clause]
+    fn root_index(&mut self, a: &usize) -> (r: usize)
+        requires old(self).wf(), old(self).parent@.len() < usize::MAX
+        ensures final(self).wf(), final(self).index@.contains_key(*a),
+            r < final(self).parent@.len(), final(self).parent@[r as int] == r,
+            r == rep(final(self).parent@, final(self).index@[*a] as int),
+            final(self).elements@[r as int] == old(self).erep(*a),
+            forall|z: usize| #[trigger] final(self).erep(z) == old(self).erep(z),
+            forall|z: usize| old(self).index@.contains_key(z) ==> #[trigger] final(self).index@.contains_key(z) && final(self).index@[z] == old(self).index@[z],
+            final(self).parent@.len() >= old(self).parent@.len(), final(self).parent@.len() <= old(self).parent@.len() + 1,
+            // roots stay roots
+            forall|i: int| 0 <= i < old(self).parent@.len() && old(self).parent@[i] == i ==> #[trigger] final(self).parent@[i] == i,
+            old(self).rank_ok() ==> final(self).rank_ok(), // aux
+    {
+        let mut x = self.get_index(a);
+        let mut root = x;
+        let ghost s1 = *self;
+        let ghost ia = x as int;
+
+        while self.parent[root] != root
+            invariant self.wf(), root < self.parent@.len(), x < self.parent@.len(),
+                self.index@ == s1.index@, self.elements@ == s1.elements@, self.parent@ == s1.parent@, self.rank@ == s1.rank@,
+                rep(self.parent@, root as int) == rep(self.parent@, ia),
+        {
+            proof { lemma_rep_step(self.parent@, root as int); }
+            root = self.parent[root];
+        }
+        proof { lemma_root_rep(self.parent@, root as int); }
+
+        while x != root
+            invariant self.wf(), root < self.parent@.len(), x < self.parent@.len(),
+                self.index@ == s1.index@, self.elements@ == s1.elements@, self.parent@.len() == s1.parent@.len(),
+                s1.rank_ok() ==> self.rank_ok(), // aux
+                rep(self.parent@, x as int) == root, self.parent@[root as int] == root,
+                root == rep(s1.parent@, ia),
+                forall|k: int| rep(self.parent@, k) == rep(s1.parent@, k),
+                forall|i: int| 0 <= i < s1.parent@.len() && s1.parent@[i] == i ==> #[trigger] self.parent@[i] == i,
+        {
+            proof { lemma_rep_step(self.parent@, x as int); lemma_compress_all(self.parent@, x as int);
+                    lemma_nonroots_update(self.parent@, x as int, root);
+                    if self.parent@[x as int] == x { lemma_root_rep(self.parent@, x as int); } }
+            let t = x;
+            x = self.parent[x];
+            self.parent[t] = root;
+        }
+
+        proof {
+            assert forall|z: usize| #[trigger] self.erep(z) == old(self).erep(z) by {
+                assert(s1.erep(z) == old(self).erep(z));
+            }
+            assert(s1.erep(*a) == s1.elements@[rep(s1.parent@, ia)]);
+        }
+        root
+    }
+    //@ end
+
+    //@ begin src/util/partitions.rs :: impl<T> PartitionImpl<T> where T: Clone + Eq + Hash :: fn find
+    //@ rw R4 /\bT\b/usize/
+    //@ rw R16 /-> usize$/-> (r: usize)/
+    fn find(&mut self, a: &usize) -> (r: usize)
+        requires old(self).wf(), old(self).parent@.len() < usize::MAX
+        // C20: the representative of a; finding changes no class; "a representative is a member of its class" (its own representative)
+        ensures final(self).wf(), r == old(self).erep(*a),
+            forall|z: usize| #[trigger] final(self).erep(z) == old(self).erep(z),
+            final(self).erep(r) == r,
+            old(self).rank_ok() ==> final(self).rank_ok(), // aux
+    {
+        let root = self.root_index(a);
+        proof {
+            assert(self.index@.contains_key(self.elements@[root as int]));
+            lemma_root_rep(self.parent@, root as int);
+        }
+        self.elements[root].clone()
+    }
+    //@ end
+
+    //@ begin src/util/partitions.rs :: impl<T> PartitionImpl<T> where T: Clone + Eq + Hash :: fn unite
+    //@ rw R4 /\bT\b/usize/
+    fn unite(&mut self, a: &usize, b: &usize)
+        requires old(self).wf(), old(self).parent@.len() < usize::MAX - 1,
+            old(self).rank_ok(), // aux
+        // C20: exactly the classes of a and b are merged, every other class keeps its representative
+        ensures final(self).wf(),
+            final(self).rank_ok(), // aux
+            forall|z: usize| #![trigger final(self).erep(z)] final(self).erep(z) ==
+                (if old(self).erep(z) == old(self).erep(*a) || old(self).erep(z) == old(self).erep(*b)
+                 { final(self).erep(*a) } else { old(self).erep(z) }),
+            final(self).erep(*a) == final(self).erep(*b),
+            final(self).erep(*a) == old(self).erep(*a) || final(self).erep(*a) == old(self).erep(*b),
+            final(self).parent@.len() <= old(self).parent@.len() + 2,
+    {
+        let x = self.root_index(a);
+        let ghost sa = *self;
+        let y = self.root_index(b);
+        let ghost s2 = *self;
+        proof {
+            // x is still the root of a's slot
+            assert(s2.index@.contains_key(*a) && s2.index@[*a] == sa.index@[*a]);
+            assert(s2.parent@[x as int] == x);
+            s2.lemma_slots(*a);
+            assert(s2.erep(*a) == sa.erep(*a));
+            lemma_root_rep(s2.parent@, x as int);
+            assert(s2.index@[s2.elements@[x as int]] == x);
+            assert(sa.elements@[x as int] == s2.elements@[x as int]) by {
+                // elements only grow
+                assert(s2.index@.contains_key(sa.elements@[x as int]));
+                assert(s2.index@[sa.elements@[x as int]] == sa.index@[sa.elements@[x as int]]);
+            }
+            assert(rep(s2.parent@, s2.index@[*a] as int) == x);
+        }
+
+        if x != y {
+            proof {
+                lemma_link(self.parent@, x as int, y as int);
+                lemma_link(self.parent@, y as int, x as int);
+                lemma_nonroots_update(self.parent@, x as int, y);
+                lemma_nonroots_update(self.parent@, y as int, x);
+            }
+            let rx = self.rank[x];
+            let ry = self.rank[y];
+
+            if rx < ry {
+                self.parent[x] = y;
+            } else {
+                if rx == ry {
+                    proof {
+                        lemma_total_ge(self.rank@, x as int);
+                        lemma_nonroots_root(self.parent@, x as int);
+                        assert(rx + 1 <= self.parent@.len());
+                        lemma_total_update(self.rank@, x as int, (rx + 1) as usize);
+                    }
+                    self.rank[x] = rx + 1;
+                }
+                self.parent[y] = x;
+            }
+        }
+        proof {
+            // translate the statement about slots into the statement about elements
+            let w = if x == y { x as int } else { rep(self.parent@, x as int) };
+            assert forall|z: usize| #![trigger self.erep(z)] self.erep(z) ==
+                (if old(self).erep(z) == old(self).erep(*a) || old(self).erep(z) == old(self).erep(*b)
+                 { self.erep(*a) } else { old(self).erep(z) }) by {
+                assert(s2.erep(z) == old(self).erep(z));
+                assert(s2.erep(*a) == old(self).erep(*a));
+                assert(s2.erep(*b) == old(self).erep(*b));
+                if s2.index@.contains_key(z) {
+                    s2.lemma_slots(z); s2.lemma_slots(*a); s2.lemma_slots(*b);
+                    s2.lemma_erep_eq(z, *a); s2.lemma_erep_eq(z, *b);
+                    lemma_rep_props(s2.parent@, s2.index@[z] as int);
+                } else {
+                    // z was never seen: it is its own class, and differs from every indexed element
+                    s2.lemma_slots(*a); s2.lemma_slots(*b);
+                }
+            }
+            s2.lemma_slots(*a); s2.lemma_slots(*b);
+        }
+    }
+    //@ end
+}
+
+
+// Partition<T>: R6 wrapper as for IntPartition (abstract state: the representative function on elements)
+pub open spec fn united_u(r0: spec_fn(usize) -> usize, r1: spec_fn(usize) -> usize, a: usize, b: usize) -> bool {
+    &&& forall|z: usize| #[trigger] r1(z) == (if r0(z) == r0(a) || r0(z) == r0(b) { r1(a) } else { r0(z) })
+    &&& r1(a) == r1(b)
+    &&& (r1(a) == r0(a) || r1(a) == r0(b))
+}
+
+#[verifier::external_body]
+//@ begin src/util/partitions.rs :: - :: struct Partition
+//@ rw R4 /struct Partition<T>/struct Partition/
+//@ rw R4 /PartitionImpl<T>/PartitionImpl/
+pub struct Partition {
+    _impl: UnsafeCell<PartitionImpl>,
+}
+//@ end
+
+impl Partition {
+    pub uninterp spec fn erep(&self, x: usize) -> usize;
+
+    //@ begin src/util/partitions.rs :: impl<T> Partition<T> where T: Clone + Eq + Hash :: fn new
+    //@ rw R16 /-> Self/-> (r: Self)/
+    #[verifier::external_body]
+    pub fn new() -> (r: Self)
+        ensures forall|x: usize| #[trigger] r.erep(x) == x
+    {
+        Partition { _impl: UnsafeCell::new(PartitionImpl::new())}
+    }
+    //@ end
+
+    //@ begin src/util/partitions.rs :: impl<T> Partition<T> where T: Clone + Eq + Hash :: fn find
+    //@ rw R4 /\bT\b/usize/
+    //@ rw R16 /-> usize$/-> (r: usize)/
+    #[verifier::external_body]
+    pub fn find(&self, x: &usize) -> (r: usize)
+        ensures r == self.erep(*x), self.erep(r) == r
+    {
+        unsafe { (*self._impl.get()).find(x) }
+    }
+    //@ end
+
+    //@ begin src/util/partitions.rs :: impl<T> Partition<T> where T: Clone + Eq + Hash :: fn unite
+    //@ rw R4 /\bT\b/usize/
+    #[verifier::external_body]
+    pub fn unite(&mut self, x: &usize, y: &usize)
+        ensures united_u(|z: usize| old(self).erep(z), |z: usize| final(self).erep(z), *x, *y)
+    {
+        unsafe { (*self._impl.get()).unite(x, y) };
+    }
+    //@ end
+}
+
+// the elements of s whose representative is r, in order
+pub open spec fn sel2(p: &Partition, s: Seq<usize>, r: usize) -> Seq<usize>
+    decreases s.len()
+{
+    if s.len() == 0 { Seq::empty() }
+    else {
+        let t = sel2(p, s.drop_last(), r);
+        if p.erep(s.last()) == r { t.push(s.last()) } else { t }
+    }
+}
+
+proof fn lemma_sel2_push(p: &Partition, s: Seq<usize>, x: usize, r: usize)
+    ensures sel2(p, s.push(x), r) == (if p.erep(x) == r { sel2(p, s, r).push(x) } else { sel2(p, s, r) })
+{
+    assert(s.push(x).drop_last() =~= s);
+}
+
+proof fn lemma_sel2_none(p: &Partition, s: Seq<usize>, r: usize)
+    requires forall|j: int| 0 <= j < s.len() ==> p.erep(#[trigger] s[j]) != r
+    ensures sel2(p, s, r) == Seq::<usize>::empty()
+    decreases s.len()
+{
+    if s.len() > 0 {
+        assert forall|j: int| 0 <= j < s.drop_last().len() implies p.erep(#[trigger] s.drop_last()[j]) != r by { assert(s.drop_last()[j] == s[j]); }
+        lemma_sel2_none(p, s.drop_last(), r);
+        assert(p.erep(s[s.len() - 1]) != r);
+    }
+}
+
+// what `classes` returns for the first n queried elements
+pub open spec fn classes2_ok(p: &Partition, elms: Seq<usize>, n: int, cs: Seq<Vec<usize>>, firsts: Seq<int>) -> bool {
+    &&& firsts.len() == cs.len()
+    // class k is non-empty and is exactly the queried elements with its representative, in query order ...
+    &&& forall|k: int| 0 <= k < cs.len() ==> (#[trigger] cs[k])@.len() > 0 && cs[k]@ == sel2(p, elms.take(n), p.erep(cs[k]@[0]))
+    // ... classes have pairwise different representatives ...
+    &&& forall|k: int, l: int| 0 <= k < l < cs.len() ==> p.erep((#[trigger] cs[k])@[0]) != p.erep((#[trigger] cs[l])@[0])
+    // ... every queried element is in some class ...
+    &&& forall|j: int| 0 <= j < n ==> exists|k: int| 0 <= k < cs.len() && p.erep((#[trigger] cs[k])@[0]) == p.erep(#[trigger] elms[j])
+    // ... and classes are listed in first-occurrence order: class k starts with elms[firsts[k]], firsts strictly increasing
+    &&& forall|k: int| 0 <= k < cs.len() ==> 0 <= #[trigger] firsts[k] < n && cs[k]@[0] == elms[firsts[k]]
+    &&& forall|k: int, l: int| 0 <= k < l < cs.len() ==> #[trigger] firsts[k] < #[trigger] firsts[l]
+}
+
+impl Partition {
+    //@ begin src/util/partitions.rs :: impl<T> Partition<T> where T: Clone + Eq + Hash :: fn classes
+    //@ rw R4 /\bT\b/usize/
+    //@ rw R16 /-> Vec<Vec<usize>>/-> (classes: Vec<Vec<usize>>)/
+    //@ rw R12 /let mut class_for_rep = HashMap::new\(\);/let mut class_for_rep: HashMap<usize, usize> = HashMap::new();/
+    //@ rw R12 /let mut classes = vec!\[\];/let mut classes: Vec<Vec<usize>> = vec![];/
+    //@ rw R17 /^([ \t]*)for e in elms$/\1for e in it: elms/
+    pub fn classes(&self, elms: &[usize]) -> (classes: Vec<Vec<usize>>)
+                // C20: "The class listing partitions the queried elements accordingly, in first-occurrence order"
+        ensures exists|firsts: Seq<int>| classes2_ok(self, elms@, elms@.len() as int, classes@, firsts)
+    {
+        let mut class_for_rep: HashMap<usize, usize> = HashMap::new();
+        let mut classes: Vec<Vec<usize>> = vec![];
+        let ghost mut firsts: Seq<int> = Seq::empty();
+        proof { assert(elms@.take(0) =~= Seq::<usize>::empty()); }
+
+        for e in it: elms
+            invariant
+                it.seq().len() == elms@.len(), 0 <= it.index() <= elms@.len(),
+                forall|j: int| 0 <= j < elms@.len() ==> *(#[trigger] it.seq()[j]) == elms@[j],
+                classes2_ok(self, elms@, it.index() as int, classes@, firsts),
+                // the map is exactly: representative of class k -> k
+                forall|r: usize| #[trigger] class_for_rep@.contains_key(r) ==>
+                    class_for_rep@[r] < classes@.len() && self.erep(classes@[class_for_rep@[r] as int]@[0]) == r,
+                forall|k: int| 0 <= k < classes@.len() ==>
+                    class_for_rep@.contains_key(self.erep((#[trigger] classes@[k])@[0]) as usize),
+        {
+            let ghost ev = *e;
+            let rep = self.find(e);
+            let ghost n = it.index() as int;
+            let ghost cs0 = classes@;
+            proof {
+                assert(*it.seq()[n] == elms@[n]);
+                assert(ev == elms@[n]);
+                assert(elms@.take(n + 1) =~= elms@.take(n).push(ev));
+                assert forall|k: int| 0 <= k < cs0.len() implies
+                    sel2(self, elms@.take(n + 1), self.erep(cs0[k]@[0])) ==
+                        (if self.erep(ev) == self.erep(cs0[k]@[0]) { cs0[k]@.push(ev) } else { cs0[k]@ }) by {
+                    lemma_sel2_push(self, elms@.take(n), ev, self.erep(cs0[k]@[0]));
+                }
+            }
+            if let Some(cl) = class_for_rep.get(&rep) {
+                let ghost c = *cl as int;
+                let class: &mut Vec<_> = &mut classes[*cl];
+                class.push(e.clone());
+                proof {
+                    assert(classes@[c]@ == cs0[c]@.push(ev));
+                    assert forall|k: int| 0 <= k < classes@.len() && k != c implies classes@[k] == cs0[k] by {}
+                    assert(classes@[c]@[0] == cs0[c]@[0]);
+                    assert forall|k: int| 0 <= k < classes@.len() implies (#[trigger] classes@[k])@.len() > 0
+                        && classes@[k]@ == sel2(self, elms@.take(n + 1), self.erep(classes@[k]@[0])) by {
+                        if k != c { assert(classes@[k] == cs0[k]); assert(self.erep(cs0[k]@[0]) != self.erep(cs0[c]@[0])); }
+                    }
+                    assert forall|j: int| 0 <= j < n + 1 implies exists|k: int| 0 <= k < classes@.len() && self.erep((#[trigger] classes@[k])@[0]) == self.erep(#[trigger] elms@[j]) by {
+                        if j < n {
+                            let k = choose|k: int| 0 <= k < cs0.len() && self.erep((#[trigger] cs0[k])@[0]) == self.erep(elms@[j]);
+                            assert(classes@[k]@[0] == cs0[k]@[0]);
+                        } else {
+                            assert(self.erep(classes@[c]@[0]) == self.erep(elms@[j]));
+                        }
+                    }
+                    assert forall|k: int| 0 <= k < classes@.len() implies 0 <= #[trigger] firsts[k] < n + 1 && classes@[k]@[0] == elms@[firsts[k]] by {
+                        assert(classes@[k]@[0] == cs0[k]@[0]);
+                    }
+                    assert forall|k: int, l: int| 0 <= k < l < classes@.len() implies self.erep((#[trigger] classes@[k])@[0]) != self.erep((#[trigger] classes@[l])@[0]) by {
+                        assert(classes@[k]@[0] == cs0[k]@[0]); assert(classes@[l]@[0] == cs0[l]@[0]);
+                    }
+                    assert forall|r: usize| #[trigger] class_for_rep@.contains_key(r) implies
+                        class_for_rep@[r] < classes@.len() && self.erep(classes@[class_for_rep@[r] as int]@[0]) == r by {
+                        assert(classes@[class_for_rep@[r] as int]@[0] == cs0[class_for_rep@[r] as int]@[0]);
+                    }
+                    assert forall|k: int| 0 <= k < classes@.len() implies
+                        class_for_rep@.contains_key(self.erep((#[trigger] classes@[k])@[0]) as usize) by {
+                        assert(classes@[k]@[0] == cs0[k]@[0]);
+                    }
+                }
+            } else {
+                proof {
+                    // no existing class has this representative, so no earlier element has it
+                    assert forall|k: int| 0 <= k < cs0.len() implies self.erep((#[trigger] cs0[k])@[0]) != rep by {
+                        assert(class_for_rep@.contains_key(self.erep(cs0[k]@[0]) as usize));
+                    }
+                    assert forall|j: int| 0 <= j < elms@.take(n).len() implies self.erep(#[trigger] elms@.take(n)[j]) != rep by {
+                        let k = choose|k: int| 0 <= k < cs0.len() && self.erep((#[trigger] cs0[k])@[0]) == self.erep(elms@[j]);
+                    }
+                    lemma_sel2_none(self, elms@.take(n), rep);
+                    lemma_sel2_push(self, elms@.take(n), ev, rep);
+                }
+                class_for_rep.insert(rep, classes.len());
+                classes.push(vec![e.clone()]);
+                proof {
+                    firsts = firsts.push(n);
+                    let c = cs0.len() as int;
+                    assert(classes@[c]@ =~= seq![ev]);
+                    assert forall|k: int| 0 <= k < c implies classes@[k] == cs0[k] by {}
+                    assert forall|k: int| 0 <= k < classes@.len() implies (#[trigger] classes@[k])@.len() > 0
+                        && classes@[k]@ == sel2(self, elms@.take(n + 1), self.erep(classes@[k]@[0])) by {
+                        if k < c { assert(classes@[k] == cs0[k]); }
+                        else { assert(Seq::<usize>::empty().push(ev) =~= seq![ev]); }
+                    }
+                    assert forall|j: int| 0 <= j < n + 1 implies exists|k: int| 0 <= k < classes@.len() && self.erep((#[trigger] classes@[k])@[0]) == self.erep(#[trigger] elms@[j]) by {
+                        if j < n {
+                            let k = choose|k: int| 0 <= k < cs0.len() && self.erep((#[trigger] cs0[k])@[0]) == self.erep(elms@[j]);
+                            assert(classes@[k] == cs0[k]);
+                        } else {
+                            assert(self.erep(classes@[c]@[0]) == self.erep(elms@[j]));
+                        }
+                    }
+                    assert forall|k: int| 0 <= k < classes@.len() implies 0 <= #[trigger] firsts[k] < n + 1 && classes@[k]@[0] == elms@[firsts[k]] by {
+                        if k < c { assert(classes@[k] == cs0[k]); }
+                    }
+                    assert forall|k: int, l: int| 0 <= k < l < classes@.len() implies #[trigger] firsts[k] < #[trigger] firsts[l] by {}
+                    assert forall|k: int, l: int| 0 <= k < l < classes@.len() implies self.erep((#[trigger] classes@[k])@[0]) != self.erep((#[trigger] classes@[l])@[0]) by {
+                        assert(classes@[k] == cs0[k]);
+                        if l < c { assert(classes@[l] == cs0[l]); }
+                    }
+                    assert forall|r: usize| #[trigger] class_for_rep@.contains_key(r) implies
+                        class_for_rep@[r] < classes@.len() && self.erep(classes@[class_for_rep@[r] as int]@[0]) == r by {
+                        if r != rep { assert(classes@[class_for_rep@[r] as int] == cs0[class_for_rep@[r] as int]); }
+                    }
+                    assert forall|k: int| 0 <= k < classes@.len() implies
+                        class_for_rep@.contains_key(self.erep((#[trigger] classes@[k])@[0]) as usize) by {
+                        if k < c { assert(classes@[k] == cs0[k]); }
+                    }
+                }
+            }
+        }
+
+        proof { assert(elms@.take(elms@.len() as int) =~= elms@); }
+        classes
+    }
+    //@ end
+}
+
+
+impl Clone for Partition {
+    //@ begin src/util/partitions.rs :: impl<T> Clone for Partition<T> where T: Clone :: fn clone
+    //@ rw R16 /-> Self/-> (r: Self)/
+    #[verifier::external_body]
+    fn clone(&self) -> (r: Self)
+        ensures forall|x: usize| #[trigger] r.erep(x) == self.erep(x)
+    {
+        Self {
+            _impl: UnsafeCell::new(unsafe { (*self._impl.get()).clone() })
+        }
+    }
+    //@ end
+}
+
+// PartitionImpl::unite establishes `united_u`, the relation the wrapper's contract states and the history lemma consumes
+proof fn lemma_unite_u_is_united(p0: PartitionImpl, p1: PartitionImpl, a: usize, b: usize)
+    requires
+        forall|z: usize| #![trigger p1.erep(z)] p1.erep(z) ==
+            (if p0.erep(z) == p0.erep(a) || p0.erep(z) == p0.erep(b) { p1.erep(a) } else { p0.erep(z) }),
+        p1.erep(a) == p1.erep(b),
+        p1.erep(a) == p0.erep(a) || p1.erep(a) == p0.erep(b),
+    ensures united_u(|z: usize| p0.erep(z), |z: usize| p1.erep(z), a, b)
+{
+    let r0 = |z: usize| p0.erep(z);
+    let r1 = |z: usize| p1.erep(z);
+    assert forall|z: usize| #[trigger] r1(z) == (if r0(z) == r0(a) || r0(z) == r0(b) { r1(a) } else { r0(z) }) by {
+        assert(r1(z) == p1.erep(z));
+    }
+}
+
+proof fn canary_generic_wf_is_satisfiable(s: PartitionImpl)
+    requires s.wf(), s.rank_ok(), s.parent@.len() == 2, s.parent@[0] == 1, s.elements@[0] == 7
+    ensures false
+{}
+
+fn canary_generic_unite_contract(s: &mut PartitionImpl)
+    requires old(s).wf(), old(s).rank_ok(), old(s).parent@.len() < 100
+    ensures false
+{
+    s.unite(&1, &2);
+}
+
+fn witness_generic_calls()
+{
+    let mut p = PartitionImpl::new();
+    p.unite(&3, &5);
+    let r = p.find(&4);
+    let mut q = Partition::new();
+    q.unite(&1, &2);
+    let cs = q.classes(&[1usize, 2, 3]);
+}
+
 // vacuity guards
 proof fn canary_wf_is_satisfiable(s: IntPartitionImpl)
     requires s.wf(), s.rank_ok(), s.parent@.len() == 3, s.parent@[0] == 1
